@@ -186,7 +186,12 @@ class VList(V):
             jc = z3.simplify(j) if not isinstance(j, int) else z3.IntVal(j)
             if z3.is_int_value(jc):
                 return self.items[jc.as_long()]
-            raise Unsupported("symbolic index into concrete-spine list")
+            if not self.items:
+                raise Unsupported("index into empty concrete-spine list")
+            acc = self.items[-1]
+            for i in range(len(self.items) - 2, -1, -1):
+                acc = ite_values(jc == i, self.items[i], acc)
+            return acc
         return self.get(j)
 
     def __repr__(self) -> str:
@@ -253,6 +258,20 @@ class VSuper(V):
     def __init__(self, owner: type, recv: V):
         self.owner = owner
         self.recv = recv
+
+
+def ite_values(c: Any, x: V, y: V) -> V:
+    if x is y:
+        return x
+    if isinstance(x, VInt) and isinstance(y, VInt):
+        return VInt(z3.If(c, x.t, y.t), x.enum if x.enum is y.enum else None)
+    if isinstance(x, VBool) and isinstance(y, VBool):
+        return VBool(z3.If(c, x.t, y.t))
+    if isinstance(x, VBytes) and isinstance(y, VBytes):
+        return VBytes(z3.If(c, x.t, y.t))
+    if isinstance(x, VTuple) and isinstance(y, VTuple) and len(x.items) == len(y.items):
+        return VTuple([ite_values(c, p, q) for p, q in zip(x.items, y.items)])
+    raise Unsupported(f"ite over {x!r} / {y!r}")
 
 
 def wrap(py: Any) -> V:
